@@ -39,20 +39,20 @@ type c12op struct {
 }
 
 type c12 struct {
-	c        *Ctx
-	sink     *zsim.SimSink
-	bws      *zapcore.BufferedWriteSyncer
-	size     int
-	ev       int64 // harness event counter: every invoke and return gets a fresh number
-	progs    [][]*c12op
-	writes   []*c12op // by id
-	firstStopInv int64
+	c             *Ctx
+	sink          *zsim.SimSink
+	bws           *zapcore.BufferedWriteSyncer
+	size          int
+	ev            int64 // harness event counter: every invoke and return gets a fresh number
+	progs         [][]*c12op
+	writes        []*c12op // by id
+	firstStopInv  int64
 	stopsInFlight int
-	faulty   bool
-	ticksPending []c12tick
-	killed   bool
-	syncAcked int // number of bytes of the sink known synced at a nil Sync return (for the crash oracle)
-	ackedIDs  map[int]bool
+	faulty        bool
+	ticksPending  []c12tick
+	killed        bool
+	syncAcked     int // number of bytes of the sink known synced at a nil Sync return (for the crash oracle)
+	ackedIDs      map[int]bool
 }
 
 type c12tick struct {
